@@ -141,12 +141,16 @@ TWIN_POOLS = {
     "twin_level":       dict(objs=[("f", 23.0, "dBm", None, None), ("f", 23.0, "dBm", None, None)],
                              units=["dBm", "mW", "dBW"]),
 }
+# two quantities built from ONE caller-owned ndarray object (kind "s"): neither may use that storage as its own
+TWIN_POOLS["twin_shared_ndarray"] = dict(objs=[("s", [1.0, 2.0, 3.0], "m", None, None),
+                                               ("s", [1.0, 2.0, 3.0], "m", None, None)], units=["m", "cm", "km"])
 POOLS.update(TWIN_POOLS)
 
 FEATURES = {
     "twin_scalar": ["twins", "same-unit"], "twin_uncertainty": ["twins", "same-unit", "uncertainty"],
     "twin_array": ["twins", "same-unit", "array"], "twin_temperature": ["twins", "same-unit", "temperature"],
     "twin_level": ["twins", "same-unit", "logarithmic"],
+    "twin_shared_ndarray": ["twins", "same-unit", "array", "shared-input-ndarray"],
     "same_unit": ["same-unit"], "diff_unit": ["different-unit"], "compound": ["different-unit", "compound-unit"],
     "log_dB": ["logarithmic"], "log_dBm": ["logarithmic"],
     "log_fraction": ["logarithmic", "fraction-form"], "log_fraction_mixed": ["logarithmic", "fraction-form", "different-unit"], "angle": ["angle", "different-unit"],
@@ -179,7 +183,7 @@ UNA = {
     "mul_one": lambda a: a * 1, "rmul_one": lambda a: 1 * a, "div_one": lambda a: a / 1, "sum_builtin": lambda a: sum([a]),
     "eq_num": lambda a: a == 2, "pow2": lambda a: a ** 2, "pow1": lambda a: a ** 1, "pow_half": lambda a: a ** (1, 2), "neg": lambda a: -a,
     "linspace_num": lambda a: np.linspace(a, 2, 3), "rlinspace_num": lambda a: np.linspace(2, a, 3),
-    "index": lambda a: a[0],
+    "index": lambda a: a[0], "slice": lambda a: a[1:3], "slice_full": lambda a: a[:],
     "imul_num": lambda a: operator.imul(a, 2), "idiv_num": lambda a: operator.itruediv(a, 2),
     "iadd_num": lambda a: operator.iadd(a, 2), "isub_num": lambda a: operator.isub(a, 2),
     "ipow_num": lambda a: operator.ipow(a, 2),
@@ -229,10 +233,13 @@ def opname(op):
 
 
 # ------------------------------------------------------------------------------------------------ execution
-def make(spec):
+def make(spec, shared=None):
     from scinumtools.units import Quantity
     kind, val, unit, abse, rele = spec
-    if kind == "d":
+    if kind == "s":
+        shared = {} if shared is None else shared
+        val = shared.setdefault(tuple(val), np.array(val, dtype=float))
+    elif kind == "d":
         val = Decimal(val)
     elif kind == "a":
         val = list(val)
@@ -405,7 +412,8 @@ def run_history(pname, hist):
     """Execute hist on a fresh pool, checking every step.
     Returns (pool, failure-or-None, last outcome kind 'ok'/'err', index of the violating step or None)."""
     from scinumtools.units import Quantity
-    pool = [make(s) for s in POOLS[pname]["objs"]]
+    shared = {}
+    pool = [make(s, shared) for s in POOLS[pname]["objs"]]
     n0 = len(pool)
     last = "ok"
     for k, op in enumerate(hist):
@@ -562,7 +570,8 @@ def run_shard(desc):
                 sh.fail(rec)
         isolation.tables_restore()
         return sh
-    init_pool = [make(s) for s in POOLS[pname]["objs"]]
+    _sh0 = {}
+    init_pool = [make(s, _sh0) for s in POOLS[pname]["objs"]]
     s0 = canon(pname, init_pool)
     seen = {s0}
     if k == 0:
